@@ -792,8 +792,10 @@ func (ctx HelperContext) SimplifyUnusedExpr(expr Expr, unsupportedFeatures compa
 						// Since TypeScript doesn't handle this extreme edge case and
 						// TypeScript is very widely used, I think it's fine for us to not
 						// handle this edge case either.
-						if id, ok := test.Data.(*EIdentifier); ok && !id.MustKeepDueToWithStmt && TryToInsertOptionalChain(test, right) {
-							return right
+						if id, ok := test.Data.(*EIdentifier); ok && !id.MustKeepDueToWithStmt {
+							if chain, ok := TryToInsertOptionalChain(test, right); ok {
+								return chain
+							}
 						}
 					}
 				}
@@ -855,7 +857,7 @@ func (ctx HelperContext) SimplifyUnusedExpr(expr Expr, unsupportedFeatures compa
 						} else {
 							// Replace "(async () => { foo() })()" with "(async () => foo())()"
 							clone := *target
-							clone.Body.Block.Stmts[0].Data = &SReturn{ValueOrNil: s.Value}
+							clone.Body.Block.Stmts = []Stmt{{Loc: target.Body.Block.Stmts[0].Loc, Data: &SReturn{ValueOrNil: s.Value}}}
 							clone.PreferExpr = true
 							return Expr{Loc: expr.Loc, Data: &ECall{Target: Expr{Loc: e.Target.Loc, Data: &clone}}}
 						}
@@ -1669,46 +1671,58 @@ func ValuesLookTheSame(left E, right E) bool {
 	return ok && equal
 }
 
-func TryToInsertOptionalChain(test Expr, expr Expr) bool {
+// This returns a copy of "expr" with an optional chain inserted instead of
+// mutating "expr" in place because this is also called after the AST has been
+// frozen (i.e. after parsing ends, when the AST may be shared with the cache).
+func TryToInsertOptionalChain(test Expr, expr Expr) (Expr, bool) {
 	switch e := expr.Data.(type) {
 	case *EDot:
 		if ValuesLookTheSame(test.Data, e.Target.Data) {
-			e.OptionalChain = OptionalChainStart
-			return true
+			clone := *e
+			clone.OptionalChain = OptionalChainStart
+			return Expr{Loc: expr.Loc, Data: &clone}, true
 		}
-		if TryToInsertOptionalChain(test, e.Target) {
-			if e.OptionalChain == OptionalChainNone {
-				e.OptionalChain = OptionalChainContinue
+		if target, ok := TryToInsertOptionalChain(test, e.Target); ok {
+			clone := *e
+			clone.Target = target
+			if clone.OptionalChain == OptionalChainNone {
+				clone.OptionalChain = OptionalChainContinue
 			}
-			return true
+			return Expr{Loc: expr.Loc, Data: &clone}, true
 		}
 
 	case *EIndex:
 		if ValuesLookTheSame(test.Data, e.Target.Data) {
-			e.OptionalChain = OptionalChainStart
-			return true
+			clone := *e
+			clone.OptionalChain = OptionalChainStart
+			return Expr{Loc: expr.Loc, Data: &clone}, true
 		}
-		if TryToInsertOptionalChain(test, e.Target) {
-			if e.OptionalChain == OptionalChainNone {
-				e.OptionalChain = OptionalChainContinue
+		if target, ok := TryToInsertOptionalChain(test, e.Target); ok {
+			clone := *e
+			clone.Target = target
+			if clone.OptionalChain == OptionalChainNone {
+				clone.OptionalChain = OptionalChainContinue
 			}
-			return true
+			return Expr{Loc: expr.Loc, Data: &clone}, true
 		}
 
 	case *ECall:
 		if ValuesLookTheSame(test.Data, e.Target.Data) {
-			e.OptionalChain = OptionalChainStart
-			return true
+			clone := *e
+			clone.OptionalChain = OptionalChainStart
+			return Expr{Loc: expr.Loc, Data: &clone}, true
 		}
-		if TryToInsertOptionalChain(test, e.Target) {
-			if e.OptionalChain == OptionalChainNone {
-				e.OptionalChain = OptionalChainContinue
+		if target, ok := TryToInsertOptionalChain(test, e.Target); ok {
+			clone := *e
+			clone.Target = target
+			if clone.OptionalChain == OptionalChainNone {
+				clone.OptionalChain = OptionalChainContinue
 			}
-			return true
+			return Expr{Loc: expr.Loc, Data: &clone}, true
 		}
 	}
 
-	return false
+	return Expr{}, false
 }
 
 func joinStrings(a []uint16, b []uint16) []uint16 {
@@ -2983,8 +2997,10 @@ func (ctx HelperContext) MangleIfExpr(loc logger.Loc, e *EIf, unsupportedFeature
 
 			// "a != null ? a.b.c[d](e) : undefined" => "a?.b.c[d](e)"
 			if !unsupportedFeatures.Has(compat.OptionalChain) {
-				if _, ok := whenNull.Data.(*EUndefined); ok && TryToInsertOptionalChain(check, whenNonNull) {
-					return whenNonNull
+				if _, ok := whenNull.Data.(*EUndefined); ok {
+					if chain, ok := TryToInsertOptionalChain(check, whenNonNull); ok {
+						return chain
+					}
 				}
 			}
 		}
